@@ -15,6 +15,7 @@ import tempfile
 import numpy as np
 from affine import Affine
 
+from .. import gen
 from ..attach import attach, detach_all
 from ..kernel import Monitor, call, hsig, WORK_DIR
 
@@ -130,6 +131,8 @@ def make_config(rng: random.Random):
     # pixel magnitudes: ordinary; huge (timestamps, accumulated counts, 1e17..1e150 floats: per-band statistics then render to very long decimal strings); tiny; special (NaN / inf
     # among floats, values at the ends of the integer range); and the 64-bit integer types
     cfg["magnitude"] = rng.choice(["ordinary", "ordinary", "ordinary", "huge", "huge", "tiny", "special"])
+    if rng.random() < 0.15:
+        cfg["crs"] = rng.choice(gen.CUSTOM_RASTER_CRS)  # user-defined CRS without an authority code
     if rng.random() < 0.12:
         cfg["dtype"] = rng.choice(["int64", "uint64"])
         cfg["nodata"] = rng.choice([None, 0, -9999 if cfg["dtype"] == "int64" else 9999])
@@ -153,7 +156,8 @@ def run_config(mon: Monitor, cfg, workdir: str) -> None:
 
     ny, nx, layout, ns, dtype = cfg["ny"], cfg["nx"], cfg["layout"], cfg["ns"], cfg["dtype"]
     r = 0.001 if cfg["crs"] == "EPSG:4326" else 10.0
-    gb = GeoBox((ny, nx), Affine(r, 0, 100 * r, 0, -r, 500 * r), cfg["crs"])
+    ox_, oy_ = gen.crs_origin(cfg["crs"], r)
+    gb = GeoBox((ny, nx), Affine(r, 0, ox_, 0, -r, oy_), cfg["crs"])
     shape = {"YX": (ny, nx), "SYX": (ns, ny, nx), "YXS": (ny, nx, ns)}[layout]
     nprng = np.random.default_rng(cfg["data_seed"])
     dt = np.dtype(dtype)
@@ -259,7 +263,7 @@ def run_config(mon: Monitor, cfg, workdir: str) -> None:
             ok_shape = back.shape == (exp.shape[0], padded[0], padded[1])
             ok_pix = back.shape[0] == exp.shape[0] and back.shape[1] >= ny and back.shape[2] >= nx and np.array_equal(back[:, :ny, :nx], exp, equal_nan=dt.kind == "f") and str(back.dtype) == dtype
             ok_pad = bool((back[:, ny:, :] == fill).all() and (back[:, :, nx:] == fill).all())
-            ok_geo = src.transform.almost_equals(gb.transform, 1e-12 * max(1.0, abs(gb.transform.c))) and src.crs is not None and src.crs.to_epsg() == int(cfg["crs"].split(":")[1])
+            ok_geo = src.transform.almost_equals(gb.transform, 1e-12 * max(1.0, abs(gb.transform.c))) and gen.crs_read_back_ok(src.crs, cfg["crs"], gb.transform.c, gb.transform.f)
             ok_nodata = (src.nodata == nodata) or (nodata is None and src.nodata is None)
             ovr = [src.overviews(b + 1) for b in range(src.count)]
             ok_ovr_gdal = all(o == [2 ** (k + 1) for k in range(levels)] for o in ovr)
